@@ -16,6 +16,7 @@ Decided:
 Not decided: equality on all texts of the subset (regex cascade vs LALR grammar is a language
 equivalence question out of reach; only the families above are enumerated).
 """
+import ast
 import itertools
 import re as _re
 
@@ -115,9 +116,28 @@ def lexical_rule(chk, repo):
     # every string literal of the function (wherever it is bound or passed: `regex = r"..."`, re.compile(r"..."), ...)
     # that parses as a regex containing identifier-shaped groups
     # the whole module is scanned: patterns may be precompiled at module level or live in helper functions
+    # module-level string constants, for patterns assembled with f-strings (`rf"({_IDENT})\s+({_IDENT})..."`)
+    consts = {}
+    for st in repo.tree[FILE].body:
+        if isinstance(st, (ast.Assign, ast.AnnAssign)) and getattr(st, "value", None) is not None:
+            tg = st.targets[0] if isinstance(st, ast.Assign) else st.target
+            if isinstance(tg, ast.Name):
+                v = _static_str(st.value, consts)
+                if v is not None:
+                    consts[tg.id] = v
+    unresolved = 0
+    in_fstring = {id(x) for j in ast.walk(repo.tree[FILE]) if isinstance(j, ast.JoinedStr) for x in ast.walk(j) if x is not j}
     for node in ast.walk(repo.tree[FILE]):
-        if isinstance(node, ast.Constant) and isinstance(node.value, str) and "[" in node.value and "(" in node.value and node.value not in seen_pats:
+        if id(node) in in_fstring:
+            continue
+        pat = None
+        if isinstance(node, ast.Constant) and isinstance(node.value, str):
             pat = node.value
+        elif isinstance(node, ast.JoinedStr):
+            pat = _static_str(node, consts)
+            if pat is None and any(isinstance(x, ast.Constant) and isinstance(x.value, str) and "(" in x.value for x in node.values):
+                unresolved += 1
+        if pat is not None and "[" in pat and "(" in pat and pat not in seen_pats:
             seen_pats.add(pat)
             try:
                 groups = identifier_groups(pat)
@@ -133,7 +153,35 @@ def lexical_rule(chk, repo):
                 chk.ob("C14.L.identifier-class", f"regex::{pat[:40]}::group{gid}", not missing_first and not missing_rest, file=FILE, func="fast_parse_verilog_netlist", line=node.lineno,
                        fact={"regex": pat, "group": gid, "first_chars_rejected": "".join(missing_first), "rest_chars_rejected": "".join(missing_rest)},
                        expect="accepts every first / following character the grammar's identifier terminal accepts")
-    chk.floor("identifier groups in the fast parser's regexes", n, 2)
+    if unresolved and n < 2:
+        chk.note(f"{unresolved} pattern(s) assembled from parts that are not module-level string constants: the identifier-class rule abstains (C14.A decides on netlists)")
+    else:
+        chk.floor("identifier groups in the fast parser's regexes", n, 2)
+
+
+def _static_str(node, consts):
+    """The string a literal / f-string over module-level string constants / concatenation of such denotes, else None."""
+    if isinstance(node, ast.Constant) and isinstance(node.value, str):
+        return node.value
+    if isinstance(node, ast.Name) and node.id in consts:
+        return consts[node.id]
+    if isinstance(node, ast.JoinedStr):
+        out = ""
+        for v in node.values:
+            if isinstance(v, ast.Constant) and isinstance(v.value, str):
+                out += v.value
+            elif isinstance(v, ast.FormattedValue) and v.format_spec is None and v.conversion == -1:
+                x = _static_str(v.value, consts)
+                if x is None:
+                    return None
+                out += x
+            else:
+                return None
+        return out
+    if isinstance(node, ast.BinOp) and isinstance(node.op, ast.Add):
+        a_, b_ = _static_str(node.left, consts), _static_str(node.right, consts)
+        return a_ + b_ if a_ is not None and b_ is not None else None
+    return None
 
 
 def writer_texts(P):
@@ -312,6 +360,38 @@ endmodule
   buf b0 (y, q0);
 endmodule
 """, [RefBlackBox("fd2", ["CP", "D", "CD"], ["Q", "QN"])], "s"
+    # identifiers that end in a declaration keyword, followed by white space (`wire my_input , w2;`, an instance `x_output (...)`)
+    yield "identifiers-ending-in-input-and-output", """module m (a, b, y, z);
+  input a, b;
+  output y, z;
+  wire my_input , w2, the_output , x_endmodule;
+  and g (w2, a, b);
+  buf g4 (x_endmodule, a);
+  buf g1 (my_input, a);
+  not x_output (the_output, b);
+  and g2 (y, w2, my_input, x_endmodule);
+  or g3 (z, the_output, w2);
+endmodule
+""", [], "m"
+    # named connections written without blanks after the commas, an unconnected pin among them
+    yield "pin-connections-without-blanks", """module s (ck, rst, d0, y);
+  input ck, rst, d0;
+  output y;
+  wire q0;
+  fd2 r0 (.CD(rst),.QN(),.CP(ck),.D(d0),.Q(q0));
+  buf b0 (y, q0);
+endmodule
+""", [fd], "s"
+    # a primitive listing one net twice (edges form a set; on a parity gate the pair cancels out)
+    yield "primitive-with-a-repeated-operand", """module r (a, b, y, z, w, v);
+  input a, b;
+  output y, z, w, v;
+  xor g0 (y, a, a);
+  xnor g1 (z, a, b, b);
+  and g2 (w, a, a, b);
+  xor g3 (v, a, b, a);
+endmodule
+""", [], "r"
     yield "net-named-tie1-input", """module t (tie1, a, y);
   input tie1, a;
   output y;
